@@ -3,7 +3,7 @@
    extracted file into the current directory. *)
 From Coq Require Import Extraction ExtrOcamlBasic.
 From LV Require Import Base.Bytes Base.Utf8 Base.Base64 Model.Codec Model.Response Model.ServerInfo
-  Model.Auth Model.Client Model.Address Model.HeaderEnc Model.Body Model.Mailbox Model.Headers Model.Builder Model.Pool Model.Mime Model.Transports Model.Dkim Model.Date Model.Tls Spec.Dkim Spec.MimeReader Spec.Sinks Spec.Envelope Spec.SmtpData Spec.Xtext Spec.Rfc5322 Spec.Rfc2047 Spec.Rfc2231 Spec.Cte Proofs.DkimShapeCert.
+  Model.Auth Model.Client Model.Address Model.HeaderEnc Model.Body Model.Mailbox Model.Headers Model.Builder Model.Pool Model.Mime Model.Transports Model.Dkim Model.Date Model.TypedHeaders Model.Tls Spec.Dkim Spec.MimeReader Spec.Sinks Spec.Envelope Spec.SmtpData Spec.Xtext Spec.Rfc5322 Spec.Rfc2047 Spec.Rfc2231 Spec.Cte Proofs.DkimShapeCert.
 Extraction Language OCaml.
 Extraction "model.ml"
   Codec.encode Codec.wire SmtpData.server_data SmtpData.recv
@@ -28,4 +28,5 @@ Extraction "model.ml"
   Transports.sendmail_args Transports.json_envelope Transports.stub_keeps_octets Sinks.read_envelope Sinks.sendmail_reads
   Model.Dkim.canon_body Model.Dkim.canon_headers_relaxed Model.Dkim.sig_field Model.Dkim.fold_sig Spec.Dkim.spec_body Spec.Dkim.spec_field_relaxed Spec.Dkim.delete_b DkimShapeCert.certify
   Date.of_secs Date.to_secs Date.date_display Date.date_parse
+  TypedHeaders.mime_version_parse TypedHeaders.mime_version_display TypedHeaders.cte_parse TypedHeaders.cte_display
   Tls.tsend Tls.clear_units Tls.tls_units.
